@@ -1,7 +1,7 @@
 #!/bin/sh
 # dev helper: run ALL checks against every benign (behaviour-preserving) patch under $1 (default /tmp/benout); anything but exit 0 is listed
 ROOT=${1:-/tmp/benout}
-ALL=C01,C02,C03,C04,C05,C08,C09,C10,C11,C12,C13,C14,C15,C16,C17,C18,C19,C20
+ALL=C01,C02,C03,C04,C05,C07,C08,C09,C10,C11,C12,C13,C14,C15,C16,C17,C18,C19,C20
 for d in $(ls -d $ROOT/*/[0-9]*/ 2>/dev/null); do
   [ -f $d/patch.diff ] || continue
   echo "$d"
